@@ -12,12 +12,12 @@ Section Fifo.
 Variable c : cfg.
 
 Lemma f_backup {A} st (k : act A) (Q : A -> store -> Prop) v0 :
-  (forall st', wp T k st' Q) -> wp T (backup c v0 k) st Q.
+  (forall st', wp true T k st' Q) -> wp true T (backup c v0 k) st Q.
 Proof. intros Hk. unfold backup. destruct (reqSized c); [apply Hk|]. cbn [wp]. split; [exact I|apply Hk]. Qed.
 
-Lemma f_put v st x : wp T (putInternal c v x) st (fun y _ => ri (fst y) = ri v).
+Lemma f_put v st x : wp true T (putInternal c v x) st (fun y _ => ri (fst y) = ri v).
 Proof.
-  apply (wp_put c T (fun v' _ => ri v' = ri v)).
+  apply (wp_put c true T (fun v' _ => ri v' = ri v)).
   - intros; exact I.
   - auto.
   - reflexivity.
@@ -25,11 +25,11 @@ Proof.
   - intros q st' H _ _. exact H.
 Qed.
 
-Lemma f_finish v st index : wp T (itemDispatchingFinish v index) st (fun v' _ => ri v' = ri v).
+Lemma f_finish v st index : wp true T (itemDispatchingFinish v index) st (fun v' _ => ri v' = ri v).
 Proof. unfold itemDispatchingFinish. cbn [wp]. split; [exact I|reflexivity]. Qed.
 
 Lemma f_getNext v st :
-  wp T (getNextItem v) st
+  wp true T (getNextItem v) st
      (fun y _ => ri (fst y) = ri v + 1 /\ match snd y with Some (i, _) => i = ri v | None => True end).
 Proof.
   unfold getNextItem. cbn [wp]. split; [exact I|].
@@ -40,7 +40,7 @@ Proof.
 Qed.
 
 Lemma f_read_loop fuel : forall v st,
-  wp T (read_loop fuel v) st
+  wp true T (read_loop fuel v) st
      (fun y _ => ri v <= ri (fst y) /\ match snd y with RItem i _ => ri v <= i < ri (fst y) | _ => True end).
 Proof.
   induction fuel as [|f IH]; intros v st; cbn [read_loop].
@@ -56,11 +56,11 @@ Proof.
       intros [v3 rr] st3 (A1 & A2). cbn [fst snd] in *. split; [lia|]. destruct rr; auto. lia.
 Qed.
 
-Lemma f_onDone v st index sz oc : wp T (onDone c v index sz oc) st (fun v' _ => ri v' = ri v).
+Lemma f_onDone v st index sz oc : wp true T (onDone c v index sz oc) st (fun v' _ => ri v' = ri v).
 Proof.
   unfold onDone. set (v1 := set_q v (Z.max 0 (qsize v - sz))).
   assert (Fin : forall v2 st2, ri v2 = ri v ->
-     wp T (if N.eqb (ri v2 mod 10) 0 then backup c v2 (Done (unref v2)) else Done (unref v2)) st2
+     wp true T (if N.eqb (ri v2 mod 10) 0 then backup c v2 (Done (unref v2)) else Done (unref v2)) st2
         (fun v' _ => ri v' = ri v)).
   { intros v2 st2 E. destruct (N.eqb (ri v2 mod 10) 0); [apply f_backup; intros|]; cbn [wp]; exact E. }
   destruct oc.
@@ -72,12 +72,13 @@ Proof.
 Qed.
 
 Lemma f_run_op v outs st o :
-  wp T (run_op c (v, outs) o) st
+  wp true T (run_op c (v, outs) o) st
      (fun x _ => ri v <= ri (fst (fst x)) /\
                  match snd x with RRead i _ => ri v <= i < ri (fst (fst x)) | _ => True end).
 Proof.
   destruct o as [x| |k oc|]; cbn [run_op].
-  - apply wp_bind. eapply wp_mono; [intros s0 Hs0; exact Hs0| |apply (f_put v st x)].
+  - destruct (would_wait c v x); [cbn [wp fst snd]; split; [lia|exact I]|].
+    apply wp_bind. eapply wp_mono; [intros s0 Hs0; exact Hs0| |apply (f_put v st x)].
     intros y st' H. cbn beta in H. cbn [wp fst snd]. split; [lia|exact I].
   - apply wp_bind. unfold readQ. destruct (stopped v); [cbn [wp fst snd]; split; [lia|exact I]|].
     eapply wp_mono; [intros s0 Hs0; exact Hs0| |apply (f_read_loop _ v st)].
@@ -102,12 +103,12 @@ Lemma f_script ops : forall b st v outs evs obs,
   fifo_inv v obs -> StronglySorted N.lt (read_idx (i_obs (run_script c b st (v, outs) ops evs obs))).
 Proof.
   induction ops as [|o ops IH]; intros b st v outs evs obs [HS HF]; cbn [run_script]; [exact HS|].
-  pose proof (wp_run T _ st _ b I (f_run_op v outs st o)) as HR.
+  pose proof (wp_run true T _ st _ b I (f_run_op v outs st o)) as HR.
   destruct (run_act b st (run_op c (v, outs) o)) as [[st1 b1] [[[v1 outs1] r]|]]; [|exact HS].
   cbn [fst snd] in HR. destruct HR as [H1 H2]. apply IH. unfold fifo_inv. rewrite read_idx_app.
   assert (HF1 : Forall (fun i => i < ri v1) (read_idx obs)).
   { eapply Forall_impl; [|exact HF]. intros a Ha. cbn beta in Ha. lia. }
-  destruct r as [a|i x| | |e|]; cbn [read_idx flat_map fst app]; rewrite ?app_nil_r; try (split; assumption).
+  destruct r as [a| |i x| | |e|]; cbn [read_idx flat_map fst app]; rewrite ?app_nil_r; try (split; assumption).
   split.
   - apply sorted_snoc; [exact HS|]. eapply Forall_impl; [|exact HF]. intros a Ha. cbn beta in Ha. lia.
   - apply Forall_app. split; [exact HF1|]. constructor; [lia|constructor].
